@@ -596,12 +596,14 @@ def gen_exact(rng):
     elif r < 0.93:
         kind = "remove_pbc"
         boxarg = _box_for(rng, dt)[0]
-        sizes = [rng.choice([1, 2, 2, 4]) for _ in range(rng.choice([1, 2, 3]))]
-        a, mols, pos = [], [], 0
-        for sz in sizes:
-            a += _walk(rng, sz, boxarg)
-            mols.append(list(range(pos, pos + sz)))
-            pos += sz
+        sizes = [rng.choice([1, 2, 2, 4]) for _ in range(rng.choice([1, 2, 3, 4]))]
+        if rng.random() < 0.4:
+            sizes = [rng.choice([2, 4])] * rng.choice([2, 3, 4])          # "solvent": equal molecules
+        walks = [_walk(rng, sz, boxarg) for sz in sizes]
+        # the atoms of a molecule need not be contiguous in the array (all O, then all H1, ...)
+        order = _layout(rng, sizes, rng.choice(["contiguous", "by-position", "by-position", "merge"]))
+        a = [walks[m][j] for m, j in order]
+        mols = [[i for i, (m_, _j) in enumerate(order) if m_ == m] for m in range(len(sizes))]
         ops.append(f"rpbcmol {dt} {enc_arr(a)} {enc_box(boxarg)} {';'.join(','.join(str(i) for i in mm) for mm in mols)}")
     else:
         kind = "box"
@@ -614,6 +616,25 @@ def gen_exact(rng):
         if rng.random() < 0.5:
             ops.append(f"disp f64 {enc_arr(_arr(rng, ()))} {enc_arr(_arr(rng, (2,)))} {enc_box(boxarg)}")
     return {"kind": kind, "ops": ops}
+
+
+def _layout(rng, sizes, mode):
+    """Array order of the atoms of several molecules: list of (molecule, atom-in-molecule) pairs.  The relative order
+    of the atoms of ONE molecule is always kept; `by-position` lists all first atoms, then all second atoms, ...
+    (solvent grouped by element: all O, all H1, all H2), `merge` is a random interleaving, `contiguous` the usual one."""
+    if mode == "by-position":
+        return [(m, j) for j in range(max(sizes, default=0)) for m in range(len(sizes)) if j < sizes[m]]
+    if mode == "merge":
+        left = [0] * len(sizes)
+        out = []
+        while True:
+            open_ = [m for m in range(len(sizes)) if left[m] < sizes[m]]
+            if not open_:
+                return out
+            m = rng.choice(open_)
+            out.append((m, left[m]))
+            left[m] += 1
+    return [(m, j) for m in range(len(sizes)) for j in range(sizes[m])]
 
 
 def _singular_box(rng):
@@ -977,8 +998,22 @@ def gen_float(rng):
                      "bonds": [[order.index(p), order.index(c)] for p, c in bonds],
                      "shift": shift,
                      "stretch": 1.0 if rng.random() < 0.85 else rng.uniform(2.0, 12.0)})
-    return {"kind": "f-rpbc", "dt": dt, "boxkind": kind, "box": box, "mols": mols,
-            "wrap": rng.choice(["shift", "shift", "inside"]), "seed": seed}
+    layout = rng.choice(["contiguous", "contiguous", "by-position", "merge"])
+    if rng.random() < 0.25:
+        # solvent-like: several equal small molecules spread over the box, listed grouped by atom position
+        n = rng.choice([2, 3, 3, 4])
+        coords, bonds = _molecule(rng, n)
+        mols = []
+        for _ in range(rng.choice([2, 3, 5, 8])):
+            centre = [sum(rng.uniform(0, 1) * box[r_][i] for r_ in range(3)) for i in range(3)]
+            R = [[float(x) for x in row] for row in _quat_rotation(rng)]
+            rc = [[sum(R[a_][b_] * c[b_] for b_ in range(3)) for a_ in range(3)] for c in coords]
+            mols.append({"coords": [[c[k] + centre[k] for k in range(3)] for c in rc], "bonds": [list(b_) for b_ in bonds],
+                         "shift": [[rng.randint(-1, 1) for _ in range(3)] for _ in range(n)] if rng.random() < 0.5 else [[0, 0, 0]] * n,
+                         "stretch": 1.0})
+        layout = rng.choice(["by-position", "by-position", "merge"])
+    return {"kind": "f-rpbc", "dt": dt, "boxkind": kind, "box": box, "mols": mols, "layout": layout,
+            "layout_seed": rng.getrandbits(32), "wrap": rng.choice(["shift", "shift", "inside"]), "seed": seed}
 
 
 def _heights_f(box):
@@ -1342,6 +1377,29 @@ def _o_exact(case):
                     bx = _box_exact(b if b.ndim == 2 else b[mi])
                     v += _check_rpbc(_exact(ra[mi]), _exact(rr[mi]), bx, [(i, i + 1) for i in range(len(ra[mi]) - 1)], 0.0, f"op `{op}`",
                                      array_adjacent=True)
+            elif w[0] == "rpbcmol":
+                a, b = np_arr(dec_arr(w[2]), "float32"), _npbox(np, dec_box(w[3]), "float32")
+                mols = [[int(i) for i in mm.split(",")] for mm in w[4].split(";")]
+                atoms = _mk_atoms(np, struc, a, b)
+                bl = [(mm[i], mm[i + 1], 1) for mm in mols for i in range(len(mm) - 1)]
+                atoms.bonds = struc.BondList(len(a), np.array(bl, dtype=np.uint32).reshape(-1, 3))
+                try:
+                    res = struc.remove_pbc(atoms).coord
+                except Exception:
+                    continue
+                bx = _box_exact(b)
+                ea, er = _exact(a), _exact(res)
+                contiguous = all(mm == list(range(mm[0], mm[0] + len(mm))) for mm in mols)
+                for mm in mols:
+                    vv = _check_rpbc([ea[i] for i in mm], [er[i] for i in mm], bx, [(k, k + 1) for k in range(len(mm) - 1)], 0.0,
+                                     f"op `{op}` molecule {mm}", array_adjacent=False, adj_ok=True)
+                    if not contiguous:
+                        vv = [(k + "/molecule-not-contiguous-in-array" if k == "C15/remove_pbc/bonded-atoms-not-at-minimum-image" else k, m) for k, m in vv]
+                    v += vv
+                    det, invc = _inv_exact(bx)
+                    cen = [sum(er[i][k] for i in mm) / len(mm) for k in range(3)]
+                    if not all(0 <= f < 1 for f in _fracs(cen, invc)):
+                        v.append(("C15/remove_pbc/centroid-outside-box", f"op `{op}` molecule {mm}"))
             elif w[0] in ("repeat", "rbox"):
                 a, b = np_arr(dec_arr(w[2]), "float64"), _npbox(np, dec_box(w[3]), "float64")
                 amount = 1 if w[4] == "-" else int(w[4])
@@ -2027,37 +2085,42 @@ def _o_unitcell(case):
 
 
 def _build_rpbc(case):
-    """AtomArray with bonds, wrapped coordinates (exact lists), bookkeeping"""
+    """AtomArray with bonds, wrapped coordinates, bookkeeping: (atoms, box, bonds, per-molecule index lists, adj_ok)"""
+    import random as _random
+
     import numpy as np
 
     import biotite.structure as struc
-    dt = case["dt"]
     box = _npf(case["box"], "f32")
     bx = _box_fl(box)
     det, invc = _inv_exact(bx)
-    coords, bonds, molranges, adj_ok = [], [], [], []
     hmin = min(_heights(bx))
+    per_mol, adj_ok = [], []
     for mol in case["mols"]:
-        start = len(coords)
         st = mol.get("stretch", 1.0)
         base = mol["coords"][0]
         true = [[base[k] + (c[k] - base[k]) * st for k in range(3)] for c in mol["coords"]]
-        # array neighbours closer than half the smallest box height in the unwrapped molecule?
-        ok = all(math.dist(true[i], true[i + 1]) < 0.5 * hmin * 0.98 for i in range(len(true) - 1))
+        # array neighbours OF THIS MOLECULE closer than half the smallest box height in the unwrapped molecule?
+        adj_ok.append(all(math.dist(true[i], true[i + 1]) < 0.5 * hmin * 0.98 for i in range(len(true) - 1)))
+        wrapped = []
         for c, s in zip(true, mol["shift"]):
             if case["wrap"] == "shift":
-                coords.append([c[k] + sum(s[r_] * float(box[r_][k]) for r_ in range(3)) for k in range(3)])
+                wrapped.append([c[k] + sum(s[r_] * float(box[r_][k]) for r_ in range(3)) for k in range(3)])
             else:
-                f = [float(x) for x in _fracs([Fr(x) for x in c], invc)]
-                coords.append([c[k] - sum(math.floor(f[r_]) * float(box[r_][k]) for r_ in range(3)) for k in range(3)])
-        bonds += [(start + i, start + j, 1) for i, j in mol["bonds"]]
-        molranges.append((start, len(coords)))
-        adj_ok.append(ok)
+                f = [float(x) for x in _fracs(c, invc)]
+                wrapped.append([c[k] - sum(math.floor(f[r_]) * float(box[r_][k]) for r_ in range(3)) for k in range(3)])
+        per_mol.append(wrapped)
+    sizes = [len(m) for m in per_mol]
+    order = _layout(_random.Random(case.get("layout_seed", 0)), sizes, case.get("layout", "contiguous"))
+    pos = {mj: i for i, mj in enumerate(order)}
+    coords = [per_mol[m][j] for m, j in order]
+    bonds = [(pos[(m, i)], pos[(m, j)], 1) for m, mol in enumerate(case["mols"]) for i, j in mol["bonds"]]
+    molsets = [[pos[(m, j)] for j in range(sizes[m])] for m in range(len(sizes))]
     atoms = struc.AtomArray(len(coords))
-    atoms.coord = np.array(coords, dtype=np.float32)
+    atoms.coord = np.array(coords, dtype=np.float32).reshape(-1, 3)
     atoms.box = box
     atoms.bonds = struc.BondList(len(coords), np.array(bonds, dtype=np.uint32).reshape(-1, 3))
-    return atoms, bx, bonds, molranges, adj_ok
+    return atoms, bx, bonds, molsets, adj_ok
 
 
 def _o_rpbc(case):
@@ -2065,7 +2128,7 @@ def _o_rpbc(case):
 
     import biotite.structure as struc
     v = []
-    atoms, bx, bonds, molranges, adj_ok = _build_rpbc(case)
+    atoms, bx, bonds, molsets, adj_ok = _build_rpbc(case)
     eps = EPS["f32"]
     cond = _cond(bx)
     res = struc.remove_pbc(atoms)
@@ -2074,20 +2137,24 @@ def _o_rpbc(case):
     before, after = _fl64(atoms.coord), _fl64(res.coord)
     det, invc = _inv_exact(bx)
     hinv = max(1.0 / h for h in _heights(bx))
-    for (lo, hi), ok in zip(molranges, adj_ok):
-        mb = [(i - lo, j - lo) for i, j, _ in bonds if lo <= i < hi]
-        v += _check_rpbc(before[lo:hi], after[lo:hi], bx, mb, tol, f"{case['boxkind']} box, molecule atoms {lo}..{hi - 1}",
-                         array_adjacent=False, adj_ok=ok)
-        n = hi - lo
-        cen = [sum(after[i][k] for i in range(lo, hi)) / n for k in range(3)]
+    lay = case.get("layout", "contiguous")
+    for idxs, ok in zip(molsets, adj_ok):
+        loc = {g: k for k, g in enumerate(idxs)}
+        mb = [(loc[i], loc[j]) for i, j, _ in bonds if i in loc]
+        where = f"{case['boxkind']} box, {lay} layout, molecule at array positions {idxs}"
+        vv = _check_rpbc([before[i] for i in idxs], [after[i] for i in idxs], bx, mb, tol, where, array_adjacent=False, adj_ok=ok)
+        if lay != "contiguous":
+            vv = [(k + "/molecule-not-contiguous-in-array" if k == "C15/remove_pbc/bonded-atoms-not-at-minimum-image" else k, m) for k, m in vv]
+        v += vv
+        n = len(idxs)
+        cen = [sum(after[i][k] for i in idxs) / n for k in range(3)]
         fc = [float(f) for f in _fracs(cen, invc)]
         if not all(-tol * hinv * 4 <= f <= 1 + tol * hinv * 4 for f in fc):
-            v.append(("C15/remove_pbc/centroid-outside-box", f"molecule atoms {lo}..{hi - 1}: centroid fractions {fc}"))
+            v.append(("C15/remove_pbc/centroid-outside-box", f"{where}: centroid fractions {fc}"))
     # remove_pbc_from_coord on the first molecule alone: array neighbours at minimum image
-    lo, hi = molranges[0]
-    sub = atoms.coord[lo:hi]
+    sub = atoms.coord[molsets[0]]
     r2 = struc.remove_pbc_from_coord(sub, atoms.box)
-    v += _check_rpbc(_fl64(sub), _fl64(r2), bx, [(i, i + 1) for i in range(hi - lo - 1)], tol, "remove_pbc_from_coord", array_adjacent=True)
+    v += _check_rpbc(_fl64(sub), _fl64(r2), bx, [(i, i + 1) for i in range(len(sub) - 1)], tol, "remove_pbc_from_coord", array_adjacent=True)
     return v
 
 
